@@ -1,3 +1,4 @@
+import HttpcoreModel.Props.C02HeadSpelled
 import HttpcoreModel.Props.C02Head
 import HttpcoreModel.Props.C02H2
 import HttpcoreModel.H1Obs
